@@ -39,7 +39,8 @@ fn cmd_gen(a: &Args) -> i32 {
         let mut vals: Vec<J> = vec![];
         for _ in 0..nv {
             let v = value_for(&mut rng, &w, &env, 3);
-            if json_depth(&v) <= 60 && !vals.contains(&v) {
+            // keep replayed values small: judging cost grows with the size of tree-shaped recursive values
+            if json_depth(&v) <= 30 && v.to_string().len() <= 1500 && !vals.contains(&v) {
                 vals.push(v);
             }
         }
